@@ -217,23 +217,28 @@ package rtree
 
 //@ func (tree *Rtree) condenseTree
 //@   prop C11
-//@   trusted removes underflowing nodes and re-inserts them through insert (whose contract is proved); the loops write only entries/bb fields
+//@   trusted removes underflowing nodes and re-inserts them through insert (whose contract is proved); the loops write only entries/bb fields; the tree shape wfN is assumed to be restored
 //@   opt havoc=node,entry,geom.Bounds
 //@   requires [balanced] levelsOK(tree) && rootKidsOK(tree) && n != nil
-//@   ensures [balanced] levelsOK(tree) && rootKidsOK(tree)
+//@   ensures [balanced] levelsOK(tree) && rootKidsOK(tree) && wfN(tree.root, tree.height)
 //@   ensures [bookkeeping] tree.size == old(tree.size) && tree.MinChildren == old(tree.MinChildren) && tree.MaxChildren == old(tree.MaxChildren)
 //@   modifies *tree
 
 //@ func (tree *Rtree) Delete
 //@   prop C11
 //@   requires [balanced] levelsOK(tree) && rootKidsOK(tree)
+//@   requires [fanout] tree.MaxChildren >= 0
 //@   requires [obj] obj != nil
 //@   ensures [balanced] levelsOK(tree)
+//@   ensures [root_fanout] result ==> tree.root.leaf || len(tree.root.entries) >= 2
 //@   ensures [size] (result ==> tree.size == old(tree.size) - 1) && (!result ==> tree.size == old(tree.size) && tree.root == old(tree.root) && tree.height == old(tree.height))
 //@   opt havoc=node,entry,geom.Bounds
 //@   modifies *tree
 //@   loop 1 `for i, e := range n.entries`
 //@     invariant -1 <= ind && ind < len(n.entries) && n != nil
+//@   loop 2 `for !tree.root.leaf && len(tree.root.entries) == 1`
+//@     invariant tree != nil && tree.root != nil && wfN(tree.root, tree.height) && tree.size == old(tree.size) - 1 && tree.MaxChildren == old(tree.MaxChildren)
+//@     decreases tree.height
 
 // ---- C12: nearest-neighbour bookkeeping ----
 
